@@ -5,7 +5,7 @@
 //   dyn  the same entry points with std::vector<either<int,either<ellipsis_t,tuple<...>>>>  (shape_dynamic_slice / dynamic_slice)
 //   arr  std::vector<std::array<int,K>> (only the all-integer patterns exist in this encoding)
 //   tup  index::shape_slice / index::slice called directly with the typed slice and std::array shape / indices
-//   ct   the same direct call with compile-time-constant parts (a fixed table of non-negative values)
+//   ct   the same direct call with compile-time-constant parts (a fixed table of values, negative ones included)
 // prints  ok <len> ; src_0,...   (all elements when 0 <= len <= 64; `~ first,second,last` when 64 < len < 2^62;
 //         nothing otherwise: a wrong length may be negative or astronomically large)
 #include "nmtools/array/index/slice.hpp"
@@ -59,9 +59,9 @@ static std::string run_axis(const std::string& enc, size_t n, const slice_t& sl)
     return "unsupported";
 }
 
-// ct: slice parts that are compile-time constants (integral_constant); only non-negative values compile
-// (`(unsigned_step_t)-step_` rejects a negative constant step).  A/B = -1 encodes None, C = 0 encodes a 2-part slice.
-template <int V> static auto ct_part() { if constexpr (V < 0) return nm::None; else return meta::integral_constant<size_t,(size_t)V>{}; }   // the type of the `_ct` literals
+// ct: slice parts that are compile-time constants (meta::ct_v<V> = integral_constant<int,V>, negative values included).
+// A/B = 1000 encodes None, C = 0 encodes a 2-part slice.
+template <int V> static auto ct_part() { if constexpr (V == 1000) return nm::None; else return meta::ct_v<V>; }
 template <int A, int B, int C>
 static std::string run_ct(size_t n) {
     namespace ix = nm::index;
@@ -75,14 +75,14 @@ static std::string run_ct(size_t n) {
 }
 template <int A, int B>
 static std::string ct_c(int c, size_t n) {
-    switch (c) { case 0: return run_ct<A,B,0>(n); case 1: return run_ct<A,B,1>(n); case 2: return run_ct<A,B,2>(n); default: return "unsupported"; }
+    switch (c) { case 0: return run_ct<A,B,0>(n); case -1: return run_ct<A,B,-1>(n); case 2: return run_ct<A,B,2>(n); default: return "unsupported"; }
 }
 template <int A>
 static std::string ct_b(int b, int c, size_t n) {
-    switch (b) { case -1: return ct_c<A,-1>(c, n); case 1: return ct_c<A,1>(c, n); case 3: return ct_c<A,3>(c, n); case 5: return ct_c<A,5>(c, n); default: return "unsupported"; }
+    switch (b) { case 1000: return ct_c<A,1000>(c, n); case -1: return ct_c<A,-1>(c, n); case 1: return ct_c<A,1>(c, n); case 5: return ct_c<A,5>(c, n); default: return "unsupported"; }
 }
 static std::string ct_a(int a, int b, int c, size_t n) {
-    switch (a) { case -1: return ct_b<-1>(b, c, n); case 0: return ct_b<0>(b, c, n); case 1: return ct_b<1>(b, c, n); case 2: return ct_b<2>(b, c, n); default: return "unsupported"; }
+    switch (a) { case 1000: return ct_b<1000>(b, c, n); case -2: return ct_b<-2>(b, c, n); case 0: return ct_b<0>(b, c, n); case 2: return ct_b<2>(b, c, n); default: return "unsupported"; }
 }
 
 static std::string handle(const Case& c) {
@@ -92,7 +92,7 @@ static std::string handle(const Case& c) {
     if (enc == "ct") {
         auto v = [](const Arg& x, int none){ return x.kind == 'I' ? (int)x.val : none; };
         if (c.args[4].kind == 'N') return "unsupported";       // a None step has no constant form distinct from the typed tuple
-        return ct_a(v(c.args[2], -1), v(c.args[3], -1), v(c.args[4], 0), n);
+        return ct_a(v(c.args[2], 1000), v(c.args[3], 1000), v(c.args[4], 0), n);
     }
     return with_range(c.args[2], c.args[3], c.args[4], [&](const auto& sl){ return run_axis(enc, n, sl); });
 }
